@@ -139,7 +139,9 @@ def main(argv=None):
             ctx.scale = max(ctx.scale, 4 if args.tier == "quick" else 16) * (2 if ctx.scale > 1 else 1)
             ctx.searching = True
             prop.run(ctx, res)
-    except Exception:
+    except (KeyboardInterrupt, SystemExit):
+        raise
+    except BaseException:     # also asyncio.CancelledError and friends: a run never ends without a verdict line
         tb = traceback.format_exc()
         log(tb)
         broken.append({"kind": "harness", "what": "harness exception: " + tb[-1500:]})
